@@ -802,16 +802,50 @@ def _stdlib_strips(corpus: Corpus) -> dict[str, list[dict]]:
 
 
 class Emit:
-    def __init__(self, cb: FunctionInfo, call: ast.Call, tm: FunctionInfo):
+    """One Tree call reached from a stdlib callback (directly, or through one private helper method of the parser)."""
+
+    def __init__(self, cb: FunctionInfo, call: ast.Call, tm: FunctionInfo, via: FunctionInfo | None = None, outer: ast.Call | None = None):
         self.cb, self.call, self.tm = cb, call, tm
+        self.via, self.outer = via, outer  # helper method and the call of it in the callback
         self.cls: ClassInfo | None = None
         self.ctor: ast.Call | None = None
-        self.transformed: list[str] = []  # descriptions of non-verbatim argument hops
-        self.argmap: dict[int, str] = {}  # ctor positional index -> callback parameter name
+        self.transformed: dict[int, str] = {}  # ctor index -> description of a non-verbatim hop
+        self.argmap: dict[int, str] = {}  # ctor positional index -> callback parameter name (verbatim)
+        self.argexpr: dict[int, ast.expr] = {}  # ctor positional index -> expression in the callback's terms
+        self.source_args: set[int] = set()  # ctor indices fed by self.get_starttag_text()
 
     def guards(self):
+        """Conditions (in the callback's terms) under which the callback reaches the Tree call / the helper."""
         cfg = get_cfg(self.cb)
+        return cfg.guards(cfg.stmt_of(self.outer if self.via is not None else self.call))
+
+    def inner_guards(self):
+        """Conditions inside the helper under which it reaches the Tree call (in the helper's terms)."""
+        if self.via is None:
+            return []
+        cfg = get_cfg(self.via)
         return cfg.guards(cfg.stmt_of(self.call))
+
+    def site_fi(self) -> FunctionInfo:
+        return self.via or self.cb
+
+    def to_cb_terms(self, e: ast.expr) -> ast.expr:
+        """Rewrite an expression of the helper into the callback's terms (parameters replaced by the actual arguments)."""
+        if self.via is None:
+            return e
+        mapping = {}
+        for p in [x for x in self.via.params if x != "self"]:
+            act = _actual(self.outer, self.via, p)
+            if act is not None and len(_bindings(self.via, p)) == 1:
+                mapping[p] = act
+
+        class Sub(ast.NodeTransformer):
+            def visit_Name(self, node):
+                return mapping.get(node.id, node) if isinstance(node.ctx, ast.Load) else node
+
+        import copy
+
+        return Sub().visit(copy.deepcopy(e))
 
 
 def _actual(call: ast.Call, callee: FunctionInfo, pname: str) -> ast.expr | None:
@@ -824,30 +858,50 @@ def _actual(call: ast.Call, callee: FunctionInfo, pname: str) -> ast.expr | None
     return None
 
 
+def _tree_calls(P: Ctx, fi: FunctionInfo) -> list[tuple[ast.Call, FunctionInfo]]:
+    out = []
+    for call in walk_local(fi.node):
+        if isinstance(call, ast.Call) and isinstance(call.func, ast.Attribute):
+            tms = [t for t in P.g.resolve_call(call, fi) if isinstance(t, FunctionInfo) and t.cls is not None and t.cls.fq == P.tree.fq]
+            if len(tms) > 1:
+                raise Unsupported(f"{fi.fq}: ambiguous Tree call {short(call, 50)}")
+            if tms:
+                out.append((call, tms[0]))
+    out.sort(key=lambda x: (x[0].lineno, x[0].col_offset))
+    return out
+
+
 def _callback_map(P: Ctx) -> dict[str, list[Emit]]:
+    """stdlib callback name -> Tree calls it makes, directly or through one private helper of the parser class."""
+
     def compute():
         out: dict[str, list[Emit]] = {}
+        cbnames = set(_stdlib_callbacks(P.c))
         for name, cb in P.parser.methods.items():
+            if name not in cbnames:
+                continue
             emits = []
-            for call in walk_local(cb.node):
-                if not (isinstance(call, ast.Call) and isinstance(call.func, ast.Attribute)):
-                    continue
-                tms = [t for t in P.g.resolve_call(call, cb) if isinstance(t, FunctionInfo) and t.cls is not None and t.cls.fq == P.tree.fq]
-                if not tms:
-                    continue
-                if len(tms) != 1:
-                    raise Unsupported(f"{cb.fq}: ambiguous Tree call {short(call, 50)}")
-                em = Emit(cb, call, tms[0])
+            for call, tm in _tree_calls(P, cb):
+                emits.append(Emit(cb, call, tm))
+            for oc in walk_local(cb.node):
+                if isinstance(oc, ast.Call) and isinstance(oc.func, ast.Attribute) and _is_name(oc.func.value, "self") and oc.func.attr in P.parser.methods and oc.func.attr not in cbnames:
+                    helper = P.parser.methods[oc.func.attr]
+                    for call, tm in _tree_calls(P, helper):
+                        emits.append(Emit(cb, call, tm, via=helper, outer=oc))
+            for em in emits:
                 _trace_ctor(P, em)
-                emits.append(em)
             out[name] = emits
         return out
 
     return P.c.cache("c16-cbmap", compute)
 
 
+def _is_starttag_text(e: ast.expr) -> bool:
+    return isinstance(e, ast.Call) and isinstance(e.func, ast.Attribute) and e.func.attr == "get_starttag_text" and _is_name(e.func.value, "self") and not e.args
+
+
 def _trace_ctor(P: Ctx, em: Emit) -> None:
-    tm, cb = em.tm, em.cb
+    tm, cb, site = em.tm, em.cb, em.site_fi()
     ctors = []
     for n in walk_local(tm.node):
         if isinstance(n, ast.Call):
@@ -858,9 +912,10 @@ def _trace_ctor(P: Ctx, em: Emit) -> None:
                 t = P.g.local_types(tm).get(n.func.id)
                 if t and t[0] == "type" and P.in_hier(t[1]):
                     a = _actual(em.call, tm, n.func.id)
+                    a = em.to_cb_terms(a) if a is not None else None
                     ci2 = P.hier_class_named(a, cb) if a is not None else None
                     if ci2 is None:
-                        raise Unsupported(f"{cb.fq}: node class argument {short(a, 30) if a is not None else '?'} of {tm.name} is not a class of the Element hierarchy")
+                        raise Unsupported(f"{site.fq}: node class argument {short(a, 30) if a is not None else '?'} of {tm.name} is not a class of the Element hierarchy")
                     ctors.append((n, ci2))
     if not ctors:
         return
@@ -869,20 +924,27 @@ def _trace_ctor(P: Ctx, em: Emit) -> None:
     em.ctor, em.cls = ctors[0]
     for idx, a in enumerate(em.ctor.args):
         if not isinstance(a, ast.Name) or a.id not in tm.params:
-            em.transformed.append(f"{tm.name} passes `{short(a, 40)}` to the constructor")
+            em.transformed[idx] = f"{tm.name} passes `{short(a, 40)}` to the constructor"
             continue
         if len(_bindings(tm, a.id)) != 1:
-            em.transformed.append(f"{tm.name} rebinds `{a.id}` before constructing the node")
+            em.transformed[idx] = f"{tm.name} rebinds `{a.id}` before constructing the node"
             continue
         act = _actual(em.call, tm, a.id)
         if act is None:
-            raise Unsupported(f"{cb.fq}: no argument for {tm.name}({a.id})")
+            d = _param_default(tm, a.id)
+            if d is None:
+                raise Unsupported(f"{site.fq}: no argument for {tm.name}({a.id})")
+            act = d
+        act = em.to_cb_terms(act)
+        em.argexpr[idx] = act
         if isinstance(act, ast.Name) and act.id in cb.params and len(_bindings(cb, act.id)) == 1:
             em.argmap[idx] = act.id
+        elif _is_starttag_text(act):
+            em.source_args.add(idx)
         elif isinstance(act, (ast.Name, ast.Call, ast.BinOp, ast.Subscript, ast.JoinedStr, ast.Constant, ast.IfExp, ast.BoolOp)):
-            em.transformed.append(f"{cb.name} passes `{short(act, 40)}` instead of its argument")
+            em.transformed[idx] = f"{site.name} passes `{short(act, 40)}` instead of the callback's argument"
         else:
-            raise Unsupported(f"{cb.fq}: argument {short(act, 40)}")
+            raise Unsupported(f"{site.fq}: argument {short(act, 40)}")
     if em.ctor.keywords:
         raise Unsupported(f"{tm.fq}: keyword arguments in {short(em.ctor, 50)}")
 
@@ -963,6 +1025,37 @@ def _resolve_name(e: ast.expr, _depth: int = 0) -> ast.expr:
     return e
 
 
+def _default_truth(t: ast.expr, _depth: int = 0) -> bool | None:
+    """Truth of a condition in a render() call without options (str(root)): `kwargs.get(<name>)` is None there."""
+    if _depth > 4:
+        return None
+    if isinstance(t, ast.Name):
+        v = _single_local_value(t)
+        return _default_truth(v, _depth + 1) if v is not None else None
+    if isinstance(t, ast.Call) and isinstance(t.func, ast.Attribute) and t.func.attr == "get" and isinstance(t.func.value, ast.Name) and 1 <= len(t.args) <= 2:
+        fi = enclosing_function(t)
+        kw = fi.node.args.kwarg.arg if fi is not None and not fi.is_lambda and fi.node.args.kwarg is not None else None
+        if kw and t.func.value.id == kw:
+            if len(t.args) == 1:
+                return False
+            if isinstance(t.args[1], ast.Constant):
+                return bool(t.args[1].value)
+        return None
+    if isinstance(t, ast.UnaryOp) and isinstance(t.op, ast.Not):
+        v = _default_truth(t.operand, _depth + 1)
+        return None if v is None else not v
+    if isinstance(t, ast.BoolOp):
+        vals = [_default_truth(v, _depth + 1) for v in t.values]
+        if isinstance(t.op, ast.And):
+            if any(v is False for v in vals):
+                return False
+            return True if all(v is True for v in vals) else None
+        if any(v is True for v in vals):
+            return True
+        return False if all(v is False for v in vals) else None
+    return None
+
+
 def _template(e: ast.expr) -> list:
     """[('lit', str) | ('hole', expr)] for string-building expressions."""
     e = _resolve_name(e)
@@ -980,6 +1073,8 @@ def _template(e: ast.expr) -> list:
                 raise Unsupported(f"formatted value with conversion/spec: {short(v, 40)}")
     elif isinstance(e, ast.BinOp) and isinstance(e.op, ast.Add):
         parts = _template(e.left) + _template(e.right)
+    elif isinstance(e, ast.IfExp) and _default_truth(e.test) is not None:
+        parts = _template(e.body if _default_truth(e.test) else e.orelse)  # decided for a plain render() / str() call
     elif isinstance(e, (ast.Attribute, ast.Name, ast.Call, ast.IfExp)):
         parts = [("hole", e)]
     else:
@@ -1050,12 +1145,93 @@ def _shape(P: Ctx, ci: ClassInfo) -> tuple[list, FunctionInfo, ast.Return]:
             roles[init[0][0]] = "data"
     shape = []
     for kind, v in _template(ret.value):
+        if kind == "hole" and isinstance(v, ast.Call) and isinstance(v.func, ast.Attribute) and _is_name(v.func.value, "self") and v.func.attr not in ("render", "join"):
+            helper = P.c.lookup_method(ci, v.func.attr)
+            if helper is not None and not helper.is_generator():
+                shape.append(_expand_start_helper(P, helper, v, roles, init))
+                continue
         shape.append(("lit", v) if kind == "lit" else _hole_kind(P, v, roles))
     return shape, r, ret
 
 
+def _expand_start_helper(P: Ctx, helper: FunctionInfo, call: ast.Call, roles: dict[str, str], init: dict) -> tuple:
+    """('start', <field returned verbatim when it is not None> | None, <shape of the fallback template>) for a string helper
+    such as `_render_start(close)`: `if self.raw is not None: return self.raw` + `return f"<{name}..{close}"`."""
+    cfg = get_cfg(helper)
+    rets = sorted((n for n in walk_local(helper.node) if isinstance(n, ast.Return)), key=lambda n: n.lineno)
+    rawfield = None
+    fallback = None
+    for r in rets:
+        gs = cfg.guards(r)
+        if _is_self_attr(r.value) and any(pol and isinstance(t, ast.Compare) and len(t.ops) == 1 and isinstance(t.ops[0], ast.IsNot) and unparse(t.left) == unparse(r.value) and isinstance(t.comparators[0], ast.Constant) and t.comparators[0].value is None for t, pol in gs):
+            if rawfield is not None:
+                raise Unsupported(f"{helper.fq}: several verbatim returns")
+            rawfield = r.value.attr
+        elif r.value is not None and fallback is None:
+            fallback = r
+        else:
+            raise Unsupported(f"{helper.fq}: return `{short(r, 40)}`")
+    if fallback is None:
+        raise Unsupported(f"{helper.fq}: no template return")
+    params = [p for p in helper.params if p != "self"]
+    fb = []
+    for kind, v in _template(fallback.value):
+        if kind == "hole" and isinstance(v, ast.Name) and v.id in params and len(_bindings(helper, v.id)) == 1:
+            act = _actual(call, helper, v.id) or _param_default(helper, v.id)
+            if not (isinstance(act, ast.Constant) and isinstance(act.value, str)):
+                raise Unsupported(f"{helper.fq}: argument for {v.id} is not a string literal")
+            if fb and fb[-1][0] == "lit":
+                fb[-1] = ("lit", fb[-1][1] + act.value)
+            else:
+                fb.append(("lit", act.value))
+        elif kind == "lit" and fb and isinstance(fb[-1], tuple) and fb[-1][0] == "lit":
+            fb[-1] = ("lit", fb[-1][1] + v)
+        else:
+            fb.append(("lit", v) if kind == "lit" else _hole_kind(P, v, roles))
+    return ("start", rawfield, fb)
+
+
 def _fmt_shape(shape: list) -> str:
-    return " ".join(repr(x[1]) if isinstance(x, tuple) else "{" + x + "}" for x in shape)
+    out = []
+    for x in shape:
+        if isinstance(x, tuple) and x[0] == "start":
+            out.append("{" + (f"self.{x[1]} if not None, else " if x[1] else "") + _fmt_shape(x[2]) + "}")
+        else:
+            out.append(repr(x[1]) if isinstance(x, tuple) else "{" + x + "}")
+    return " ".join(out)
+
+
+def _judge_tag(P: Ctx, rep: Report, key: str, em: Emit, kind: str, event: str) -> bool:
+    """Shape of a tag node class.  Returns True when the start tag is re-emitted from the source text:
+    the render starts with a helper that returns a stored field verbatim, and the callback feeds that field from
+    self.get_starttag_text() unchanged."""
+    shape, r, ret = _shape(P, em.cls)
+    site = r.module.site(ret)
+    expected = _expected_tag_shape(kind)
+    verbatim = False
+    if shape and isinstance(shape[0], tuple) and shape[0][0] == "start":
+        _, rawfield, fb = shape[0]
+        init = _init_fields(P, em.cls)
+        fed = [i for i in em.source_args if init.get(i) == (rawfield, "plain")] if rawfield else []
+        if fed:
+            verbatim = True
+            got, want = shape[1:], expected[5:]
+            if got == want:
+                rep.ok("C16.R3", key, site, f"{em.cls.name}.render = {{source text of the start tag}} {_fmt_shape(got)}".rstrip())
+                rep.listed("C16.R3", key + "|fallback template", site, f"for elements built without source text: {_fmt_shape(fb)} (not on the path of a parsed tree)")
+                return True
+            shape = [("lit", "<source start tag>")] + got
+            expected = [("lit", "<source start tag>")] + want
+        else:
+            shape = fb + shape[1:]
+    if shape == expected:
+        rep.ok("C16.R3", key, site, f"{em.cls.name}.render = {_fmt_shape(shape)}")
+        return verbatim
+    others = [x for x in shape if isinstance(x, str) and x.startswith("other:")]
+    if others:
+        raise Unsupported(f"{r.fq}: template part {others[0][6:]} not understood")
+    rep.violation("C16.R3", key, site, f"{event} builds a {em.cls.name}, whose render() emits {_fmt_shape(shape)} but the source form of that event is {_fmt_shape(expected)}: well-formed input is not reproduced")
+    return verbatim
 
 
 def _expected_tag_shape(kind: str) -> list:
@@ -1098,8 +1274,6 @@ def r3_callbacks_and_delimiters(corpus: Corpus, rep: Report, tier: str):
         key = f"{P.parser.fq}.{name}|overrides the stdlib callback"
         if name in P.parser.methods:
             rep.ok("C16.R3", key, P.parser.methods[name].site())
-        elif name == "unknown_decl":
-            rep.listed("C16.R3", key, P.m.site(P.parser.node), "marked sections (<![CDATA[..]]>) would be dropped; outside the well-formed grammar of the property")
         else:
             rep.violation("C16.R3", key, P.m.site(P.parser.node), f"HTMLParser.{name} is not overridden: the stdlib default discards the event (for handle_startendtag: degrades `<x/>` to start+end), so that markup vanishes from the tree and from the rendering")
     # (b) terminals
@@ -1119,14 +1293,21 @@ def r3_callbacks_and_delimiters(corpus: Corpus, rep: Report, tier: str):
             if c not in conf:
                 rep.listed("C16.R3", f"stdlib|{name}({c['raw']})", c["site"], f"non-canonical emission (strips {sorted(c['prefixes'])}): malformed/bogus markup, outside the well-formed grammar")
         ems = [e for e in cbmap.get(name, []) if e.cls is not None]
+        exp = ([("lit", pre)] if pre else []) + ["data"] + ([("lit", suf)] if suf else [])
+        # does the stdlib call this callback whatever character ends the construct (charref / entityref)?
+        permissive = [c for c in conf if isinstance(c["suffix"], tuple) and any(_class_accepts(c["suffix"][1], ch) for ch in " =T<") ]
+        if permissive and suf:
+            _judge_reference(P, rep, cb, name, pre, suf, key, exp, ems)
+            continue
         if len(ems) != 1:
             raise Unsupported(f"{cb.fq}: expected exactly one node construction, found {len(ems)}")
         em = ems[0]
         _judge_no_drop(P, rep, em, name)
         _judge_verbatim(P, rep, em, name, {0: "data"})
-        exp = ([("lit", pre)] if pre else []) + ["data"] + ([("lit", suf)] if suf else [])
         _judge_shape(P, rep, key, em.cls, exp, name)
+    _judge_marked_sections(P, rep, cbmap, mb)
     # (c) tags
+    verbatim_tags: list[bool] = []
     if "handle_starttag" in P.parser.methods:
         cb = P.parser.methods["handle_starttag"]
         rep.saw_function(cb.fq)
@@ -1140,7 +1321,7 @@ def r3_callbacks_and_delimiters(corpus: Corpus, rep: Report, tier: str):
             seen.add(kind)
             _judge_no_drop(P, rep, em, "handle_starttag", f"handle_starttag[{kind}]", allow=void_attr)
             _judge_verbatim(P, rep, em, f"handle_starttag[{kind}]", {0: "name", 1: "attrs"})
-            _judge_shape(P, rep, f"{cb.fq}|{kind} branch re-emits {TAG_SHAPES[kind][0]}", em.cls, _expected_tag_shape(kind), f"handle_starttag ({kind} branch)")
+            verbatim_tags.append(_judge_tag(P, rep, f"{cb.fq}|{kind} branch re-emits {TAG_SHAPES[kind][0]}", em, kind, f"handle_starttag ({kind} branch)"))
         if seen != {"void", "element"}:
             raise Unsupported(f"{cb.fq}: void / non-void branches not both found ({sorted(seen)})")
     if "handle_startendtag" in P.parser.methods:
@@ -1151,7 +1332,7 @@ def r3_callbacks_and_delimiters(corpus: Corpus, rep: Report, tier: str):
             raise Unsupported(f"{cb.fq}: expected exactly one node construction")
         _judge_no_drop(P, rep, ems[0], "handle_startendtag")
         _judge_verbatim(P, rep, ems[0], "handle_startendtag", {0: "name", 1: "attrs"})
-        _judge_shape(P, rep, f"{cb.fq}|self-closing form re-emits ['<', '/>']", ems[0].cls, _expected_tag_shape("selfclosing"), "handle_startendtag")
+        verbatim_tags.append(_judge_tag(P, rep, f"{cb.fq}|self-closing form re-emits ['<', '/>']", ems[0], "selfclosing", "handle_startendtag"))
     # root
     init_fns = [P.tree.methods["__init__"]] + _tree_callees(P, P.tree.methods["__init__"])  # __init__ may delegate to clear()
     root = []
@@ -1171,8 +1352,230 @@ def r3_callbacks_and_delimiters(corpus: Corpus, rep: Report, tier: str):
     # (e) character references are reported, not converted
     _judge_convert_charrefs(P, rep, std)
     # (f) attribute serialisation
-    _judge_attribute_str(P, rep, hp)
+    if verbatim_tags and all(verbatim_tags):
+        # every parsed start tag is copied from the source: Attribute.__str__ is not on the path of a parsed tree
+        tmp = Report(rep.prop, rep.tier, quiet=True)
+        try:
+            _judge_attribute_str(P, tmp, hp)
+        except (Unsupported, AnchorMissing) as e:
+            tmp.listed("C16.R3", f"{P.attribute.fq}.__str__|not analysed", P.m.site(P.attribute.node), str(e))
+        key = f"{P.attribute.fq}.__str__|attribute serialisation is off the path of parsed trees"
+        rep.ok("C16.R3", key, P.m.site(P.attribute.node), "Tag / VoidTag / XTag re-emit get_starttag_text(); Attribute.__str__ only serves elements built without source text")
+        for it in tmp.items:
+            rep.listed("C16.R3", it.key, it.site, f"[{it.status}, not judged] {it.what}"[:300])
+    else:
+        _judge_attribute_str(P, rep, hp)
     rep.expect_min("C16.R3", 20, "9 overrides + 6 terminal rows (x2) + 3 tag shapes (x2) + root + void set + charrefs + attribute form on the pinned tree")
+
+
+def _offset_attr(P: Ctx) -> str | None:
+    """Attribute that an `updatepos(i, j)` override of the parser sets to j (the start of the construct being handled)."""
+    up = P.parser.methods.get("updatepos")
+    if up is None:
+        return None
+    params = [p for p in up.params if p != "self"]
+    if len(params) != 2:
+        return None
+    for n in walk_local(up.node):
+        if isinstance(n, ast.Assign) and len(n.targets) == 1 and _is_self_attr(n.targets[0]) and _is_name(n.value, params[1]):
+            return n.targets[0].attr
+    return None
+
+
+def _judge_reference(P: Ctx, rep: Report, cb: FunctionInfo, name: str, pre: str, suf: str, key: str, exp: list, ems: list[Emit]) -> None:
+    """handle_charref / handle_entityref: the stdlib reports the reference whatever character ends it, so the terminator
+    `suf` may only be written where the source has it; otherwise prefix + name must come back verbatim."""
+    key2 = f"{cb.fq}|{suf!r} is written only where the source has one"
+    site = cb.site()
+    with_suffix = [e for e in ems if 0 in e.argmap]
+    plain = [e for e in ems if 0 not in e.argmap]
+    if len(with_suffix) != 1 or len(plain) > 1:
+        raise Unsupported(f"{cb.fq}: expected one node for the terminated reference and at most one for the unterminated one, found {len(with_suffix)} / {len(plain)}")
+    A = with_suffix[0]
+    _judge_verbatim(P, rep, A, name, {0: "data"})
+    _judge_shape(P, rep, key, A.cls, exp, name)
+    gA = A.inner_guards() + A.guards()
+    tests = [t for t, pol in gA if pol and isinstance(t, ast.Call) and isinstance(t.func, ast.Attribute) and t.func.attr == "startswith" and _is_self_attr(t.func.value, "rawdata")]
+    key_nd = f"{cb.fq}|{name}: every event produces a node"
+    if not plain and not tests:
+        if gA:
+            raise Unsupported(f"{cb.fq}: conditions {[short(t, 30) for t, _ in gA]}")
+        rep.ok("C16.R3", key_nd, site, "unconditional")
+        rep.violation("C16.R3", key2, site, f"html.parser calls {name}() whatever character ends the name (its regex ends in a character class, not in {suf!r}), but {A.cls.name}.render always appends {suf!r}: `<p>AT&T</p>` is rendered as `<p>AT&T;</p>`, `x&y=1` as `x&y;=1`")
+        return
+    if len(tests) != 1 or not plain:
+        raise Unsupported(f"{cb.fq}: the terminated / unterminated split is not a test of self.rawdata.startswith({suf!r}, ...)")
+    G = tests[0]
+    B = plain[0]
+    gB = B.inner_guards() + B.guards()
+    if not any(t is G and not pol for t, pol in gB) or len(gA) != 1 or len(gB) != 1:
+        raise Unsupported(f"{cb.fq}: the two branches are not the two outcomes of `{short(G, 40)}`")
+    rep.ok("C16.R3", key_nd, site, f"one node on either outcome of `{short(G, 50)}`")
+    problems = []
+    if not (len(G.args) == 2 and isinstance(G.args[0], ast.Constant) and G.args[0].value == suf):
+        problems.append(f"the test looks for {unparse(G.args[0]) if G.args else '?'} instead of {suf!r}")
+    else:
+        off = A.to_cb_terms(G.args[1])
+        terms = []
+        work = [off]
+        while work:
+            x = work.pop()
+            if isinstance(x, ast.BinOp) and isinstance(x.op, ast.Add):
+                work += [x.left, x.right]
+            else:
+                terms.append(x)
+        oa = _offset_attr(P)
+        kinds = []
+        payload = A.argmap[0]
+        for x in terms:
+            if _is_self_attr(x) and oa and x.attr == oa:
+                kinds.append("start")
+            elif isinstance(x, ast.Call) and dotted(x.func) == "len" and len(x.args) == 1 and isinstance(x.args[0], ast.Constant) and x.args[0].value == pre:
+                kinds.append("prefix")
+            elif isinstance(x, ast.Constant) and x.value == len(pre):
+                kinds.append("prefix")
+            elif isinstance(x, ast.Call) and dotted(x.func) == "len" and len(x.args) == 1 and _is_name(x.args[0], payload):
+                kinds.append("name")
+            else:
+                raise Unsupported(f"{cb.fq}: offset term `{short(x, 30)}` in `{short(G, 50)}`")
+        if sorted(kinds) != ["name", "prefix", "start"]:
+            problems.append(f"the position tested is not start-of-construct + len({pre!r}) + len(name) (terms: {sorted(kinds)})")
+    # the unterminated branch: a verbatim node holding prefix + name
+    bshape, _, _ = _shape(P, B.cls)
+    btpl = _template(B.argexpr[0]) if 0 in B.argexpr else []
+    want = [("lit", pre), ("hole", A.argmap[0])]
+    got = [(k, v if k == "lit" else (v.id if isinstance(v, ast.Name) else unparse(v))) for k, v in btpl]
+    if bshape != ["data"]:
+        problems.append(f"the unterminated reference is stored in a {B.cls.name}, which renders {_fmt_shape(bshape)}")
+    elif got != want:
+        problems.append(f"the unterminated reference is stored as {_fmt_tpl(btpl)} instead of {pre!r} + the name")
+    if problems:
+        rep.violation("C16.R3", key2, cb.module.site(G), f"{name}: " + "; ".join(problems) + f" - html.parser reports a reference whatever character ends it, so `AT&T` / `x&y=1` must come back without an added {suf!r}")
+    else:
+        rep.ok("C16.R3", key2, cb.module.site(G), f"{A.cls.name} only behind `{short(G, 50)}`; otherwise {B.cls.name}({pre!r} + name)")
+
+
+def _marked_section_terminators(mb) -> list[tuple[frozenset, str]]:
+    """[(keywords, terminator literal)] read from _markupbase.ParserBase.parse_marked_section."""
+    fn = mb.functions.get("ParserBase.parse_marked_section")
+    if fn is None:
+        raise AnchorMissing("stdlib _markupbase.ParserBase.parse_marked_section not found")
+    cfg = get_cfg(fn)
+    out = []
+    for n in walk_local(fn.node):
+        if isinstance(n, ast.Assign) and isinstance(n.value, ast.Call) and isinstance(n.value.func, ast.Attribute) and n.value.func.attr == "search" and isinstance(n.value.func.value, ast.Name) and n.value.func.value.id in mb.const_nodes:
+            lit = _min_literal(_regex_items(mb, n.value.func.value.id))
+            for t, pol in cfg.guards(n):
+                if pol and isinstance(t, ast.Compare) and len(t.ops) == 1 and isinstance(t.ops[0], ast.In) and isinstance(t.comparators[0], (ast.Set, ast.Tuple, ast.List)):
+                    kws = frozenset(e.value for e in t.comparators[0].elts if isinstance(e, ast.Constant))
+                    out.append((kws, lit))
+    if len(out) < 2:
+        raise Unsupported(f"stdlib parse_marked_section: terminator table not understood ({out})")
+    return out
+
+
+def _judge_marked_sections(P: Ctx, rep: Report, cbmap: dict, mb) -> None:
+    """unknown_decl gets the text between '<![' and the terminator (']]>' or ']>'): both must be written back."""
+    cb = P.parser.methods.get("unknown_decl")
+    if cb is None:
+        return  # reported by the exhaustiveness clause
+    key = f"{cb.fq}|marked sections re-emit '<![' .. ']]>' / ']>'"
+    strips = [c for c in _stdlib_strips(P.c).get("unknown_decl", [])]
+    pres = set().union(*(c["prefixes"] for c in strips)) if strips else set()
+    if len(pres) != 1:
+        raise Unsupported(f"stdlib: prefix stripped before unknown_decl not understood ({sorted(pres)})")
+    (pre,) = pres
+    table = _marked_section_terminators(mb)
+    ems = [e for e in cbmap.get("unknown_decl", []) if e.cls is not None]
+    if len(ems) != 1 or ems[0].guards() or ems[0].inner_guards():
+        raise Unsupported(f"{cb.fq}: expected exactly one unconditional node construction")
+    em = ems[0]
+    payload = cb.params[1] if len(cb.params) > 1 else None
+    shape, r, ret = _shape(P, em.cls)
+    if "data" not in shape or any(not isinstance(x, tuple) and x != "data" for x in shape):
+        raise Unsupported(f"{r.fq}: template {_fmt_shape(shape)}")
+    k = shape.index("data")
+    cls_pre = "".join(x[1] for x in shape[:k])
+    cls_suf = "".join(x[1] for x in shape[k + 1:])
+    if 0 in em.argmap:
+        arg_tpl = [("hole", ast.Name(id=em.argmap[0], ctx=ast.Load()))]
+    elif 0 in em.argexpr:
+        arg_tpl = _template(_inline_locals(em.argexpr[0], cb))
+    else:
+        raise Unsupported(f"{cb.fq}: payload of {em.cls.name} not found")
+    # split the payload template around the callback's parameter
+    idx = [i for i, (kd, v) in enumerate(arg_tpl) if kd == "hole" and _is_name(v, payload)]
+    if len(idx) != 1:
+        raise Unsupported(f"{cb.fq}: payload `{_fmt_tpl(arg_tpl)}` does not contain the reported text exactly once")
+    head, tail = arg_tpl[: idx[0]], arg_tpl[idx[0] + 1:]
+    if any(kd != "lit" for kd, _ in head):
+        raise Unsupported(f"{cb.fq}: text before the reported part `{_fmt_tpl(head)}`")
+    got_pre = cls_pre + "".join(v for _, v in head)
+    # the tail: literals and at most one two-way choice between literals
+    alts: dict[bool | None, str] = {None: ""}
+    selector = None
+    for kd, v in tail:
+        if kd == "lit":
+            alts = {c: t + v for c, t in alts.items()}
+        elif isinstance(v, ast.IfExp) and isinstance(v.body, ast.Constant) and isinstance(v.orelse, ast.Constant) and selector is None:
+            selector = _inline_locals(v.test, cb)
+            base = alts[None]
+            alts = {True: base + v.body.value, False: base + v.orelse.value}
+        else:
+            raise Unsupported(f"{cb.fq}: text after the reported part `{short(v, 40)}`")
+    got = {c: t + cls_suf for c, t in alts.items()}
+    site = cb.module.site(em.call)
+    want_lits = {lit for _, lit in table}
+    problems = []
+    if got_pre != pre:
+        problems.append(f"the section is re-opened with {got_pre!r}, html.parser strips {pre!r}")
+    if selector is None:
+        problems.append(f"the terminator written is always {got[None]!r}, html.parser strips {sorted(want_lits)} depending on the keyword")
+    else:
+        kws = None
+        if isinstance(selector, ast.Compare) and len(selector.ops) == 1 and isinstance(selector.ops[0], ast.In) and isinstance(selector.comparators[0], (ast.Set, ast.Tuple, ast.List)):
+            kws = frozenset(e.value for e in selector.comparators[0].elts if isinstance(e, ast.Constant))
+        if kws is None:
+            raise Unsupported(f"{cb.fq}: terminator selected by `{short(selector, 40)}`")
+        match = [lit for k2, lit in table if k2 == kws]
+        other = [lit for k2, lit in table if k2 != kws]
+        if not match:
+            problems.append(f"the keyword set {sorted(kws)} is none of html.parser's {[sorted(k2) for k2, _ in table]}")
+        else:
+            if got[True] != match[0]:
+                problems.append(f"sections with keyword in {sorted(kws)} are closed with {got[True]!r}, html.parser strips {match[0]!r}")
+            if any(got[False] != o for o in other):
+                problems.append(f"the other sections are closed with {got[False]!r}, html.parser strips {other}")
+    if problems:
+        rep.violation("C16.R3", key, site, "unknown_decl: " + "; ".join(problems) + " - `<![CDATA[x<y]]>` is rendered as `<!CDATA[x<y>` (its content becomes live markup) and `<![if !IE]>` as `<!if !IE>`")
+    else:
+        rep.ok("C16.R3", key, site, f"{got_pre!r} .. " + " / ".join(repr(t) for t in got.values()))
+
+
+def _inline_locals(e: ast.expr, fi: FunctionInfo) -> ast.expr:
+    """Replace locals of ``fi`` that are bound once (outside loops) by their value expression, recursively."""
+    import copy
+
+    def value_of(name: str):
+        b = _bindings(fi, name)
+        if len(b) == 1 and isinstance(b[0], (ast.Assign, ast.AnnAssign)) and b[0].value is not None and name not in fi.params:
+            return b[0].value
+        return None
+
+    class Sub(ast.NodeTransformer):
+        depth = 0
+
+        def visit_Name(self, node):
+            if isinstance(node.ctx, ast.Load) and self.depth < 6:
+                v = value_of(node.id)
+                if v is not None:
+                    self.depth += 1
+                    out = self.visit(copy.deepcopy(v))
+                    self.depth -= 1
+                    return out
+            return node
+
+    return Sub().visit(copy.deepcopy(e))
 
 
 def _eval_names(mod, e: ast.expr):
@@ -1339,7 +1742,7 @@ def _judge_verbatim(P: Ctx, rep: Report, em: Emit, event: str, roles: dict[int, 
     key = f"{em.cb.fq}|{event}: arguments reach the node unchanged"
     site = em.cb.module.site(em.call)
     init = _init_fields(P, em.cls)
-    problems = list(em.transformed)
+    problems = [m for i, m in sorted(em.transformed.items()) if i in roles]
     cbparams = [p for p in em.cb.params if p != "self"]
     for idx, role in roles.items():
         if idx not in em.argmap:
@@ -1454,6 +1857,7 @@ def _judge_attribute_str(P: Ctx, rep: Report, hp) -> None:
         raise Unsupported(f"{fi.fq}: comprehension is not `for key, value in self.items()`")
     kname, vname = (e.id for e in gen.target.elts)
     elt = _resolve_name(v.args[0].elt)
+    none_branch = None
     if isinstance(elt, ast.IfExp):
         # a separate form for value-less attributes (value None, `<input disabled>`): outside the grammar, allowed -
         # but every *string* value, the empty one included, must still take the name="value" branch
@@ -1465,6 +1869,7 @@ def _judge_attribute_str(P: Ctx, rep: Report, hp) -> None:
         if isinstance(t, ast.Compare) and len(t.ops) == 1 and _is_name(t.left, vname) and isinstance(t.comparators[0], ast.Constant) and t.comparators[0].value is None and isinstance(t.ops[0], (ast.Is, ast.IsNot, ast.Eq, ast.NotEq)):
             is_none_when_true = isinstance(t.ops[0], (ast.Is, ast.Eq)) != neg
             str_branch = elt.orelse if is_none_when_true else elt.body
+            none_branch = elt.body if is_none_when_true else elt.orelse
         elif _is_name(t, vname):
             truthy_when_true = not neg
             other = elt.orelse if truthy_when_true else elt.body
@@ -1499,10 +1904,21 @@ def _judge_attribute_str(P: Ctx, rep: Report, hp) -> None:
     else:
         rep.violation("C16.R3", key, site, f"attributes are serialised as {v.func.value.value!r}.join({_fmt_tpl(tpl)}): double-quoted `name=\"value\"` pairs separated by one space are not reproduced")
         return
-    # the stdlib unescapes attribute values; the serialiser must escape them again
     ps = hp.functions.get("HTMLParser.parse_starttag")
     if ps is None:
         raise AnchorMissing("stdlib HTMLParser.parse_starttag not found")
+    # the stdlib reports None for an attribute without a value (`<input disabled>`)
+    gives_none = [n for n in walk_local(ps.node) if isinstance(n, ast.Assign) and isinstance(n.value, ast.Constant) and n.value.value is None and any(unparse(t_) == "attrvalue" for t_ in n.targets)]
+    keyn = f"{fi.fq}|value-less attributes are written bare"
+    if gives_none:
+        ntpl = _template(none_branch) if none_branch is not None else None
+        if ntpl is not None and len(ntpl) == 1 and ntpl[0][0] == "hole" and _is_name(ntpl[0][1], kname):
+            rep.ok("C16.R3", keyn, site, "`value is None` -> the bare name")
+        elif ntpl is None:
+            rep.violation("C16.R3", keyn, site, f"html.parser reports None for an attribute without a value ({hp.rel}:{gives_none[0].lineno}) and Attribute.__str__ formats it like a string: `<input disabled>` is rendered as `<input disabled=\"None\">`")
+        else:
+            rep.violation("C16.R3", keyn, site, f"an attribute without a value is rendered as {_fmt_tpl(ntpl)} instead of its bare name: `<input disabled>` is not reproduced")
+    # the stdlib unescapes attribute values; the serialiser must escape them again
     # normalisations that no renderer can undo (evidence only)
     for n in walk_local(ps.node):
         if isinstance(n, ast.Call) and isinstance(n.func, ast.Attribute) and n.func.attr == "lower" and not n.args:
@@ -1916,6 +2332,8 @@ class _Sim:
                 continue
             if isinstance(st, (ast.Assign, ast.AnnAssign)):
                 tgt = st.targets[0] if isinstance(st, ast.Assign) and len(st.targets) == 1 else getattr(st, "target", None)
+                if isinstance(tgt, ast.Attribute) and isinstance(tgt.value, ast.Name) and tgt.value.id in env and tgt.attr not in FIELDS and isinstance(st.value, ast.Constant):
+                    continue  # a plain flag on a tracked element (e.g. item.closed = False): neither stack nor links
                 if not isinstance(tgt, ast.Name) or st.value is None:
                     raise Unsupported(f"{fi.fq}: `{short(st, 50)}`")
                 v = self.value(st.value, fi, env, tgt.id)
@@ -2010,7 +2428,7 @@ def r5_stack_discipline(corpus: Corpus, rep: Report, tier: str):
     cbmap = _callback_map(P)
     void_attr, _ = _void_elements(P)
     push_fns = {e.tm.fq: e.tm for e in cbmap.get("handle_starttag", []) if e.cls is not None and _void_polarity(e, void_attr) is False}
-    pop_fns = {e.tm.fq: e.tm for e in cbmap.get("handle_endtag", [])}
+    pop_fns = {e.tm.fq: e.tm for e in cbmap.get("handle_endtag", []) if e.cls is None}  # the Tree call that builds no node
     leaf_fns = {}
     for name, ems in cbmap.items():
         for e in ems:
@@ -2315,6 +2733,9 @@ class _EncloseRun:
             if k == "name" or k.matches:
                 self.count_match[cu[0]] -= 1
             return None
+        if isinstance(st, ast.Assign) and len(st.targets) == 1 and isinstance(st.targets[0], ast.Attribute) and st.targets[0].attr not in FIELDS and isinstance(st.value, ast.Constant):
+            if isinstance(self.ev(st.targets[0].value), _Entry):
+                return None  # a plain flag on an open element (e.g. ind.closed = True)
         if isinstance(st, ast.Assign) and len(st.targets) == 1:
             self.bind(st.targets[0], self.ev(st.value))
             return None
@@ -2755,6 +3176,10 @@ class _FindEval:
         if isinstance(e, (ast.List, ast.Tuple, ast.Set)) and not e.elts:
             return ("set0",)  # an empty collection of requested classes
         if isinstance(e, ast.BoolOp):
+            if isinstance(e.op, ast.Or) and len(e.values) == 2 and isinstance(e.values[1], ast.Constant) and e.values[1].value == "":
+                first = self.ev(e.values[0], fr)
+                if first[0] in ("val", "attrval"):
+                    return first  # `value or ""`: None and "" are the same request / the same stored value
             v = None
             for x in e.values:
                 v = self.ev(x, fr)
@@ -2807,6 +3232,8 @@ class _FindEval:
                 res = self.cur_outcome(l[1])
             elif pair == {"map", "const"} or pair == {"set", "const"}:
                 raise Unsupported(f"{fr.fi.fq}: `{short(node, 40)}`")
+        elif isinstance(op, (ast.In, ast.NotIn)) and l[0] == "key" and r[0] == "attrsobj":
+            res = self.attrs[l[1]][0]  # the element carries the requested attribute
         elif isinstance(op, (ast.In, ast.NotIn)) and l[0] == "req":
             if r[0] == "tokens":
                 res = self.T[l[1]]
@@ -2819,7 +3246,7 @@ class _FindEval:
         return ("bool", res != neg)
 
     def cur_outcome(self, i: int) -> bool:
-        return self.attrs[i]
+        return self.attrs[i][1]  # Attribute.__getitem__ of the element equals the requested value ('' for a missing key)
 
     def iterate(self, v, fr):
         """Items an iterable value yields (as values to bind to the loop target)."""
@@ -2996,7 +3423,9 @@ class _FindEval:
 
 
 def _find_scenarios():
-    variants = ["none", "empty", (True,), (False,), (True, True), (True, False), (False, True), (False, False)]
+    # per requested attribute: (the element has the key, Attribute.__getitem__ equals the requested value)
+    M, D, A, X = (True, True), (True, False), (False, True), (False, False)  # match / differs / absent but '' requested / absent
+    variants = ["none", "empty", (M,), (D,), (A,), (X,), (M, M), (M, D), (D, M), (M, A), (A, M), (D, D)]
     TT, TF, FF = (True, True), (True, False), (False, False)
     for C in (False, True):
         for N in (True, False):
@@ -3015,7 +3444,8 @@ def _scenario_text(C, N, G, T, U, a) -> str:
         cls = f"{'one' if any(T) else 'none'} of the two requested classes is among the element's class tokens"
         if all(U):
             cls += ", the other only as a substring of the raw class attribute (e.g. 'note' in class=\"notebook\")" if any(T) else ", both occur as substrings of the raw class attribute (e.g. 'note' in class=\"notebook\")"
-    att = "no attrs requested" if a in ("none", "empty") else f"requested attributes match = {list(a)}"
+    names = {(True, True): "present and equal", (True, False): "present but different", (False, True): "absent on the element (and '' / None requested, which Attribute.__getitem__ also returns for a missing key)", (False, False): "absent on the element"}
+    att = "no attrs requested" if a in ("none", "empty") else "requested attributes: " + ", ".join(names[x] for x in a)
     return f"{idt} and {'matches' if N else 'does not match'}, {cls}, {att}"
 
 
@@ -3039,6 +3469,9 @@ def _judge_find_filters(P: Ctx, rep: Report, find: FunctionInfo, main: ast.For, 
                 kinds.append(em.cls)
     if not kinds:
         raise Unsupported(f"{find.fq}: no tag node classes found")
+    void_attr, _ = _void_elements(P)
+    boxes = [em.cls for em in cbmap.get("handle_starttag", []) if em.cls is not None and _void_polarity(em, void_attr) is False]
+    kinds.sort(key=lambda k: k not in boxes)  # the element that can have children leads the full table
     TT = (True, True)
     rows = [(kinds[0], sc) for sc in _find_scenarios()]
     rows += [(k, (C, N, False, TT, TT, "none")) for k in kinds[1:] for C in (False, True) for N in (True, False)]
@@ -3047,7 +3480,7 @@ def _judge_find_filters(P: Ctx, rep: Report, find: FunctionInfo, main: ast.For, 
         C, N, G, T, U, a = sc
         run = _FindEval(P, find, main, cand, C, N, G, T, U, a)
         run.K = K
-        want = 1 if (N and (not G or all(T)) and (a in ("none", "empty") or all(a))) else 0
+        want = 1 if (N and (not G or all(T)) and (a in ("none", "empty") or all(p_ and e_ for p_, e_ in a))) else 0
         try:
             sig = run.run()
             got = "the element is yielded" + (f" {run.yields} times" if run.yields > 1 else "") if run.yields else "the element is not yielded"
@@ -3066,9 +3499,13 @@ def _judge_find_filters(P: Ctx, rep: Report, find: FunctionInfo, main: ast.For, 
         if not wrong:
             continue
         C, N, G, T, U, a = sc
+        TT_ = (True, True)
+        plain_rows = [k2 for k2, v2 in results.items() if k2[0] == C and k2[1] and not k2[2] and v2[2] == 1]
         if not N:
             which = "name"
-        elif results[(C, N, False, (True, True), (True, True), a)][0]:
+        elif plain_rows and all(results[k2][0] for k2 in plain_rows):
+            which = "name"  # never found by name, whatever else is requested
+        elif results[(C, N, False, TT_, TT_, a)][0]:
             which = "attrs"  # wrong even when no classes are requested
         else:
             which = "classes"
@@ -3248,7 +3685,61 @@ def r8_clean_state_per_parse(corpus: Corpus, rep: Report, tier: str):
     rep.expect_min("C16.R8", 1, "tokenize_html feeds a parser")
 
 
-RULES = [r1_owner_writes, r2_fresh_insertion, r3_callbacks_and_delimiters, r4_copy_before_mutate, r5_stack_discipline, r6_totality, r7_document_order, r8_clean_state_per_parse]
+# ---------------------------------------------------------------------------
+# R9 traversal depth
+
+
+def _loop_vars_over_children(fi: FunctionInfo) -> set[str]:
+    """Names bound by a for loop / comprehension in ``fi`` (candidates for 'a child of the element at hand')."""
+    out = set()
+    for n in walk_local(fi.node):
+        if isinstance(n, (ast.For, ast.comprehension)):
+            for x in ast.walk(n.target):
+                if isinstance(x, ast.Name):
+                    out.add(x.id)
+    return out
+
+
+@rule("C16.R9")
+def r9_traversal_depth(corpus: Corpus, rep: Report, tier: str):
+    rep.rule("C16.R9", "the parser builds trees of unbounded depth iteratively: a traversal of the element that can have children must not call itself once per nesting level")
+    P = _ctx(corpus)
+    cbmap = _callback_map(P)
+    void_attr, _ = _void_elements(P)
+    containers = [e.cls for e in cbmap.get("handle_starttag", []) if e.cls is not None and _void_polarity(e, void_attr) is False]
+    if len(containers) != 1:
+        raise Unsupported(f"expected one element class with children, found {[c.name for c in containers]}")
+    box = containers[0]
+    # the tree is built without recursion (otherwise depth is bounded by the parser itself and this rule is moot)
+    push = [e.tm for e in cbmap.get("handle_starttag", []) if e.cls is box]
+    rep.saw_function(push[0].fq)
+    seen = set()
+    n = 0
+    for ci in corpus.mro(box):
+        for name, fi in ci.methods.items():
+            if name in seen or fi.is_lambda:
+                continue
+            seen.add(name)
+            vars_ = _loop_vars_over_children(fi)
+            rec = [c for c in walk_local(fi.node) if isinstance(c, ast.Call) and isinstance(c.func, ast.Attribute) and c.func.attr == name and isinstance(c.func.value, ast.Name) and c.func.value.id in vars_]
+            if not vars_:
+                continue
+            n += 1
+            key = f"{fi.fq}|no recursion per nesting level"
+            if rec:
+                rep.violation(
+                    "C16.R9",
+                    key,
+                    fi.module.site(rec[0]),
+                    f"{fi.qualname} calls `{short(rec[0], 40)}` for every child, i.e. once per nesting level, while {push[0].qualname} nests elements without any depth bound: "
+                    f"on balanced input such as '<b>'*1000 + 'x' + '</b>'*1000 the tree is built but {name}() raises RecursionError",
+                )
+            else:
+                rep.ok("C16.R9", key, fi.site(), "loops over children without calling itself on them")
+    rep.expect_min("C16.R9", 4, "walk, deepcopy, strip, render (and the other child loops) of the container element")
+
+
+RULES = [r1_owner_writes, r2_fresh_insertion, r3_callbacks_and_delimiters, r4_copy_before_mutate, r5_stack_discipline, r6_totality, r7_document_order, r8_clean_state_per_parse, r9_traversal_depth]
 
 
 def _method_src(fi: FunctionInfo) -> str:
@@ -3261,11 +3752,22 @@ def mutants(corpus: Corpus):
     m = P.m
     src = m.src
 
-    def add(mid, rid, node, text, expect, canary=False):
-        if node is None:
+    def multi(edits, tail=""):
+        new_src = src
+        for node, txt in sorted(edits, key=lambda e_: (-e_[0].lineno, -e_[0].col_offset)):
+            new_src = splice(new_src, node, txt)
+        return new_src + tail
+
+    # the calls that hand the source text of a start tag to the tree (repair 991316c)
+    raw_calls = [n for cbn in ("handle_starttag", "handle_startendtag") if cbn in P.parser.methods for n in walk_local(P.parser.methods[cbn].node) if _is_starttag_text(n)]
+
+    def add(mid, rid, node, text, expect, canary=False, noraw=False, tail=""):
+        """noraw: also drop the source start tags, so that the rebuilt start tag (Attribute.__str__, fallback template) is on the path again."""
+        if node is None or (noraw and not raw_calls and False):
             out.append((mid, "anchor for this mutant not found on the current tree"))
         else:
-            out.append(Mutant(mid, rid, m.rel, splice(src, node, text), expect=expect, canary=canary))
+            edits = [(node, text)] + ([(c_, "None") for c_ in raw_calls] if noraw else [])
+            out.append(Mutant(mid, rid, m.rel, multi(edits, tail), expect=expect, canary=canary))
 
     def parent_store(fi):
         return find_node(fi, lambda n: isinstance(n, ast.Assign) and unparse(n) == "item._parent = self")
@@ -3294,15 +3796,18 @@ def mutants(corpus: Corpus):
     js = find_node(cm.methods["render"], lambda n: isinstance(n, ast.JoinedStr)) if cm else None
     add("c16-comment-render-padded", "C16.R3", js, 'f"<!-- {self.data} -->"', "handle_comment|node class", canary=True)
     xt = m.classes.get("XTag")
-    js = None
+    xc = None
     if xt:
-        cands = [n for n in walk_local(xt.methods["render"].node) if isinstance(n, ast.JoinedStr)]
-        cands.sort(key=lambda n: -n.lineno)
-        js = cands[0] if cands else None
-    add("c16-xtag-render-space-before-slash", "C16.R3", js, "f\"<{self.name}{' ' if self.attrs else ''}{self.attrs} />\"", "self-closing form")
+        xc = find_node(xt.methods["render"], lambda n: isinstance(n, ast.JoinedStr) and "/>" in unparse(n)) or find_node(xt.methods["render"], lambda n: isinstance(n, ast.Constant) and n.value == "/>")
+    if isinstance(xc, ast.JoinedStr):
+        add("c16-xtag-render-space-before-slash", "C16.R3", xc, "f\"<{self.name}{' ' if self.attrs else ''}{self.attrs} />\"", "self-closing form")
+    else:
+        add("c16-xtag-render-space-before-slash", "C16.R3", xc, '" />"', "self-closing form", noraw=True)
     c = find_node(H["handle_comment"], lambda n: isinstance(n, ast.Call) and unparse(n.func).endswith("nest_terminal"))
     add("c16-comment-text-stripped", "C16.R3", c.args[1] if c is not None else None, "data.strip()", "handle_comment: arguments")
     c = find_node(H["handle_charref"], lambda n: isinstance(n, ast.Call) and unparse(n.func).endswith("nest_terminal"))
+    if c is None:  # the reference callbacks go through a helper of the parser
+        c = find_node(H["handle_charref"], lambda n: isinstance(n, ast.Call) and _is_name(n.func.value if isinstance(n.func, ast.Attribute) else None, "self") and n.args and unparse(n.args[0]) == "Char")
     add("c16-charref-built-as-entity", "C16.R3", c.args[0] if c is not None else None, "Entity", "handle_charref|node class")
     vs = next((st for st in P.parser.node.body if isinstance(st, ast.Assign) and unparse(st.targets[0]) == "void_elements"), None)
     if vs is not None and isinstance(vs.value, ast.Set):
@@ -3316,10 +3821,14 @@ def mutants(corpus: Corpus):
     add("c16-convert-charrefs-not-forwarded", "C16.R3", c, "super().__init__()", "character references are reported")
     at = P.attribute.methods.get("__str__")
     js = find_node(at, lambda n: isinstance(n, ast.JoinedStr)) if at else None
-    add("c16-attribute-single-quoted", "C16.R3", js, "f\"{key}='{value}'\"", "attributes are written as")
+    add("c16-attribute-single-quoted", "C16.R3", js, "f\"{key}='{value}'\"", "attributes are written as", noraw=True)
     vt = m.classes.get("VoidTag")
-    js = find_node(vt.methods["render"], lambda n: isinstance(n, ast.JoinedStr)) if vt else None
-    add("c16-void-tag-rendered-self-closing", "C16.R3", js, "f\"<{self.name}{' ' if self.attrs else ''}{self.attrs}/>\"", "void branch")
+    vjs = find_node(vt.methods["render"], lambda n: isinstance(n, ast.JoinedStr)) if vt else None
+    if vjs is not None:
+        add("c16-void-tag-rendered-self-closing", "C16.R3", vjs, "f\"<{self.name}{' ' if self.attrs else ''}{self.attrs}/>\"", "void branch")
+    else:
+        vcall = find_node(vt.methods["render"], lambda n: isinstance(n, ast.Call) and isinstance(n.func, ast.Attribute) and _is_name(n.func.value, "self") and not n.args) if vt else None
+        add("c16-void-tag-rendered-self-closing", "C16.R3", vcall, (unparse(vcall.func) + '("/>")') if vcall is not None else "", "void branch", noraw=True)
     # R3 (class: an event is dropped under a condition well-formed input satisfies)
     nt_ = T["nest_terminal"]
     first = next((x for x in nt_.node.body if not (isinstance(x, ast.Expr) and isinstance(x.value, ast.Constant))), None)
@@ -3360,7 +3869,9 @@ def mutants(corpus: Corpus):
     # ---- R6
     add("c16-strict-mode-raises-on-unmatched-close", "C16.R6", fl.orelse[0] if fl is not None else None, 'raise ValueError(f"unmatched closing tag {name}")', "ValueError")
     c = find_node(H["handle_charref"], lambda n: isinstance(n, ast.Call) and unparse(n.func).endswith("nest_terminal"))
-    add("c16-charref-validated-with-int", "C16.R6", c.args[1] if c is not None else None, "str(int(data))", "int(")
+    if c is None:
+        c = find_node(H["handle_charref"], lambda n: isinstance(n, ast.Call) and n.args and unparse(n.args[0]) == "Char")
+    add("c16-charref-validated-with-int", "C16.R6", c.args[-1] if c is not None else None, "str(int(data))", "int(")
     pms = H.get("parse_marked_section")
     add("c16-marked-section-override-removed", "C16.R6", pms.node if pms is not None else None, "pass", "feed")  # reverts cda43d1
     hd = find_node(pms, lambda n: isinstance(n, ast.ExceptHandler) and n.type is not None) if pms is not None else None
@@ -3431,16 +3942,60 @@ def mutants(corpus: Corpus):
     vfv = [v for v in js3.values if isinstance(v, ast.FormattedValue)] if js3 is not None else []
     if len(vfv) == 2 and isinstance(vfv[1].value, ast.Name):
         vn = vfv[1].value.id
-        out.append(Mutant("c16-attribute-html-escape-all", "C16.R3", m.rel, splice(src, vfv[1].value, f'html.escape({vn} or "")') + "\n\nimport html\n", expect="rewrites exactly"))
-        add("c16-attribute-escapes-apostrophe-too", "C16.R3", vfv[1].value, f"""{vn}.replace("&", "&amp;").replace(chr(34), "&quot;").replace("'", "&#39;")""", "rewrites exactly")
-        add("c16-attribute-escapes-ampersand-only", "C16.R3", vfv[1].value, f"""{vn}.replace("&", "&amp;")""", "rewrites exactly")
+        add("c16-attribute-html-escape-all", "C16.R3", vfv[1].value, f'html.escape({vn} or "")', "rewrites exactly", noraw=True, tail="\n\nimport html\n")
+        add("c16-attribute-escapes-apostrophe-too", "C16.R3", vfv[1].value, f"""{vn}.replace("&", "&amp;").replace(chr(34), "&quot;").replace("'", "&#39;")""", "rewrites exactly", noraw=True)
+        add("c16-attribute-escapes-ampersand-only", "C16.R3", vfv[1].value, f"""{vn}.replace("&", "&amp;")""", "rewrites exactly", noraw=True)
     else:
         out.append(("c16-attribute-html-escape-all", "Attribute.__str__ no longer writes the bare value"))
     at2 = P.attribute.methods.get("__str__")
     js2 = find_node(at2, lambda n: isinstance(n, ast.JoinedStr)) if at2 else None
     if js2 is not None:
         seg = ast.get_source_segment(src, js2)
-        add("c16-attribute-bare-when-falsy", "C16.R3", js2, f"({seg} if value else key)", "attributes are written as")
+        add("c16-attribute-bare-when-falsy", "C16.R3", js2, f"({seg} if value else key)", "attributes are written as", noraw=True)
+    # ---- reverts of the repairs landed for this property
+    # 991316c: start tags are no longer copied from the source -> the rebuilt start tag writes attribute values raw
+    if raw_calls:
+        out.append(Mutant("c16-revert-source-start-tags", "C16.R3", m.rel, multi([(c_, "None") for c_ in raw_calls]), expect="escaped again on output", canary=True))
+    else:
+        out.append(("c16-revert-source-start-tags", "the tag callbacks do not pass get_starttag_text() any more"))
+    # 7b06096 (on the path only without the source start tags): value None formatted as a string
+    ats = P.attribute.methods.get("__str__")
+    ife = find_node(ats, lambda n: isinstance(n, ast.IfExp) and "is None" in unparse(n.test)) if ats else None
+    if ife is not None and raw_calls:
+        strb = ife.orelse if "is None" in unparse(ife.test) and "not" not in unparse(ife.test) else ife.body
+        add("c16-revert-valueless-attribute-bare", "C16.R3", ife, ast.get_source_segment(src, strb), "value-less attributes", noraw=True)
+    else:
+        out.append(("c16-revert-valueless-attribute-bare", "Attribute.__str__ has no `is None` branch"))
+    # 535b686: unknown_decl stores the reported text like a <!DOCTYPE> declaration
+    ud = H.get("unknown_decl")
+    udc = find_node(ud, lambda n: isinstance(n, ast.Call) and unparse(n.func).endswith("nest_terminal")) if ud else None
+    udp = [p_ for p_ in ud.params if p_ != "self"] if ud else []
+    add("c16-revert-marked-section-brackets", "C16.R3", udc.args[1] if udc is not None and len(udc.args) > 1 and udp else None, udp[0] if udp else "", "marked sections re-emit")
+    # 4df0f5d: a ';' after every reference, terminated or not
+    for cbn, kls in (("handle_charref", "Char"), ("handle_entityref", "Entity")):
+        rc = find_node(H[cbn], lambda n: isinstance(n, ast.Call) and isinstance(n.func, ast.Attribute) and _is_name(n.func.value, "self") and n.args and unparse(n.args[0]) == kls) if cbn in H else None
+        rp = [p_ for p_ in H[cbn].params if p_ != "self"] if cbn in H else []
+        add(f"c16-revert-semicolon-only-if-in-source-{kls.lower()}", "C16.R3", rc, f"self.struct.nest_terminal({kls}, {rp[0]})" if rp else "", "is written only where the source has one")
+    nr = P.parser.methods.get("_nest_reference")
+    sw = find_node(nr, lambda n: isinstance(n, ast.Call) and isinstance(n.func, ast.Attribute) and n.func.attr == "startswith") if nr else None
+    if sw is not None and len(sw.args) == 2 and isinstance(sw.args[1], ast.BinOp) and isinstance(sw.args[1].left, ast.BinOp):
+        add("c16-reference-terminator-tested-at-wrong-offset", "C16.R3", sw.args[1], unparse(sw.args[1].left.left) + " + " + unparse(sw.args[1].right), "is written only where the source has one")
+    # 0a32910: Attribute.__getitem__ returns '' for a missing key too
+    ft = find_node(E["find"], lambda n: isinstance(n, ast.If) and " not in " in unparse(n.test) and ".attrs" in unparse(n.test))
+    if ft is not None and isinstance(ft.test, ast.BoolOp) and len(ft.test.values) == 2 and isinstance(ft.test.values[1], ast.Compare):
+        cmp_ = ft.test.values[1]
+        add("c16-revert-find-missing-attribute-is-not-empty-value", "C16.R7", ft.test, f"{unparse(cmp_.left)} != {unparse(cmp_.comparators[0]).strip('()').split(' or ')[0]}", "attrs filter")
+    else:
+        out.append(("c16-revert-find-missing-attribute-is-not-empty-value", "find() no longer tests the presence of the requested key"))
+    # ---- R9 (class: a traversal that calls itself per nesting level)
+    fy = find_node(E["find"], lambda n: isinstance(n, ast.Expr) and isinstance(n.value, ast.Yield))
+    fit = find_node(E["find"], lambda n: isinstance(n, ast.Assign) and unparse(n.targets[0]) == "iterator" and "walk" in unparse(n.value))
+    if fy is not None and fit is not None:
+        ind_ = " " * fy.col_offset
+        cv = unparse(fy.value.value)
+        out.append(Mutant("c16-find-by-recursive-descent", "C16.R9", m.rel, multi([(fit.value, "self"), (fy, f"yield {cv}\n{ind_}if recurse:\n{ind_}    yield from {cv}.find(identifier, attrs, classes)")]), expect="Element.find"))
+    else:
+        out.append(("c16-find-by-recursive-descent", "find() has changed shape"))
     # ---- R7
     f_ = E["find"]
     al = find_node(f_, lambda n: isinstance(n, ast.For) and n.orelse and "attrs" in unparse(n.iter))
